@@ -78,6 +78,16 @@ func workerC13(args []string) int {
 	if hungOnce.Load() {
 		return 0
 	}
+	fmt.Println("PHASE twin")
+	c13TwinLoads(thorough)
+	if hungOnce.Load() {
+		return 0
+	}
+	fmt.Println("PHASE shutdown")
+	c13CleanupDuringLoad(thorough)
+	if hungOnce.Load() {
+		return 0
+	}
 	fmt.Println("PHASE ocsp")
 	c13Ocsp(rng, thorough)
 	fmt.Println("PHASE stress")
@@ -112,6 +122,165 @@ func watchdog(name string, d time.Duration, f func()) {
 		if !hungOnce.Swap(true) {
 			fmt.Printf("HANG %s did not return within %v\n", name, d)
 		}
+	}
+}
+
+// c13TwinLoads: an entry that is known but not loaded (its first load failed) is loaded by a pass and by a handshake at the same
+// time: the pass downloads without the entry lock, the handshake under it. The distribution-point set has two members, so both
+// go through the same multi-location loader. The origin lets both transfers end together.
+func c13TwinLoads(thorough bool) {
+	rounds := 2
+	if thorough {
+		rounds = 12
+	}
+	for i := 0; i < rounds; i++ {
+		disk := i%2 == 1
+		org := origin.New()
+		ca := pki.NewCA(pki.CAOpts{Name: "Twin CA", Serial: 721})
+		serial := big.NewInt(7201)
+		cdp := []string{origin.ClosedPortURL() + "/mirror/twin.crl", org.URL + "/twin.crl"}
+		if i%4 >= 2 {
+			cdp = []string{org.URL + "/twin.crl", org.URL + "/twin-b.crl"}
+		}
+		leaf := ca.Leaf(pki.LeafOpts{CN: "twin", Serial: serial, CDP: cdp})
+		chain := pki.Chain(leaf.Cert, ca)
+		// the first load fails in the transfer itself (no member of the set delivers), so nothing was learnt about the members
+		org.Set("/twin.crl", origin.Behaviour{Kind: "hangup", Body: []byte("0123456789")})
+		org.Set("/twin-b.crl", origin.Behaviour{Kind: "hangup", Body: []byte("0123456789")})
+		w, err := world.New(world.Cfg{Mode: "crl_only", Storage: backendName(disk), Sig: "verify", Fetch: "fetch_actively", CdpStrict: false, Interval: "1h"})
+		if err != nil {
+			fmt.Println("WORKER-ERROR", err)
+			return
+		}
+		if err := w.Provision(); err != nil {
+			fmt.Println("WORKER-ERROR", err)
+			return
+		}
+		watchdog("twin: failing first load", 60*time.Second, func() { w.Handshake(chain) })
+		// now the location serves a list that revokes the certificate; transfers wait for each other
+		body := BuildCRL(CRLSpec{Signer: ca, Listed: []*big.Int{serial}, Number: 2}, Shape{Size: "s300", Pos: "last", Width: "w8", Ext: "none", Enc: "der"})
+		var mu sync.Mutex
+		arrived := 0
+		gate := make(chan struct{})
+		first := make(chan struct{})
+		twin := origin.Behaviour{Kind: "func", Func: func([]byte) (int, []byte) {
+			mu.Lock()
+			arrived++
+			if arrived == 1 {
+				close(first)
+			}
+			if arrived == 2 {
+				close(gate)
+			}
+			mu.Unlock()
+			select {
+			case <-gate:
+			case <-time.After(3 * time.Second):
+			}
+			return 200, body
+		}}
+		org.Set("/twin.crl", twin)
+		org.Set("/twin-b.crl", twin)
+		var wg sync.WaitGroup
+		var got world.Result
+		wg.Add(2)
+		go func() {
+			defer wg.Done()
+			watchdog("twin: pass loading the entry", 60*time.Second, func() { w.RefreshAll() })
+		}()
+		// the handshake starts once the pass is inside its transfer (the pass looks at the entry before it downloads)
+		select {
+		case <-first:
+		case <-time.After(5 * time.Second):
+		}
+		go func() {
+			defer wg.Done()
+			watchdog("twin: handshake loading the entry", 60*time.Second, func() { got = w.Handshake(chain) })
+		}()
+		wg.Wait()
+		if !hungOnce.Load() {
+			if got.Verdict == "panic" {
+				fmt.Println("CRASH twin first-load handshake panicked:", got.Panic)
+			}
+			var after world.Result
+			watchdog("twin: handshake afterwards", 30*time.Second, func() { after = w.Handshake(chain) })
+			if !hungOnce.Load() && after.Verdict != "revoked" {
+				fmt.Printf("WRONG twin-loads: after both loads ended the listed certificate gets %s %s\n", after.Verdict, after.Err)
+			}
+		}
+		if hungOnce.Load() {
+			return
+		}
+		w.Destroy()
+		org.Close()
+	}
+}
+
+// c13CleanupDuringLoad: shutdown overlaps a first-use download (LockOrder.tla: Close holds the repository lock and asks for every
+// entry lock; the load holds its entry lock for the whole download). The handshake is kept inside its transfer by the origin,
+// Cleanup is called, a second handshake asks for the same entry, then the transfer ends: every call must return.
+func c13CleanupDuringLoad(thorough bool) {
+	rounds := 2
+	if thorough {
+		rounds = 10
+	}
+	for i := 0; i < rounds; i++ {
+		disk := i%2 == 1
+		org := origin.New()
+		ca := pki.NewCA(pki.CAOpts{Name: "Shutdown CA", Serial: 731})
+		serial := big.NewInt(7301)
+		leaf := ca.Leaf(pki.LeafOpts{CN: "shutdown", Serial: serial, CDP: []string{org.URL + "/shutdown.crl"}})
+		chain := pki.Chain(leaf.Cert, ca)
+		body := BuildCRL(CRLSpec{Signer: ca, Listed: []*big.Int{serial}, Number: 1}, Shape{Size: "s300", Pos: "first", Width: "w8", Ext: "none", Enc: "pem"})
+		inside := make(chan struct{}, 4)
+		release := make(chan struct{})
+		org.Set("/shutdown.crl", origin.Behaviour{Kind: "gated", Body: body, Gate: func() {
+			inside <- struct{}{}
+			select {
+			case <-release:
+			case <-time.After(20 * time.Second):
+			}
+		}})
+		fetch := []string{"fetch_actively", "fetch_background"}[(i/2)%2]
+		w, err := world.New(world.Cfg{Mode: "crl_only", Storage: backendName(disk), Sig: "verify", Fetch: fetch, CdpStrict: i%3 == 0, Interval: "1h"})
+		if err != nil {
+			fmt.Println("WORKER-ERROR", err)
+			return
+		}
+		if err := w.Provision(); err != nil {
+			fmt.Println("WORKER-ERROR", err)
+			return
+		}
+		v := w.V
+		var wg sync.WaitGroup
+		wg.Add(1)
+		go func() {
+			defer wg.Done()
+			watchdog("shutdown: handshake with a first-use download", 60*time.Second, func() { w.Handshake(chain) })
+		}()
+		select {
+		case <-inside:
+		case <-time.After(10 * time.Second):
+		}
+		wg.Add(2)
+		go func() {
+			defer wg.Done()
+			watchdog("shutdown: Cleanup during a first-use download", 60*time.Second, func() { v.Cleanup() })
+		}()
+		go func() {
+			defer wg.Done()
+			time.Sleep(20 * time.Millisecond)
+			watchdog("shutdown: second handshake during Cleanup", 60*time.Second, func() { w.Handshake(chain) })
+		}()
+		time.Sleep(150 * time.Millisecond)
+		close(release)
+		wg.Wait()
+		if hungOnce.Load() {
+			return
+		}
+		w.V = nil
+		w.Destroy()
+		org.Close()
 	}
 }
 
